@@ -2,8 +2,9 @@
      zbus/src/connection/mod.rs   add_match 1034-1087, remove_match 1089-1121, queue_remove_match 1123-1129,
                                   request_name_with_flags 642-651 (two add_match calls whose receivers are never handed
                                   to a MessageStream)
-     zbus/src/message_stream.rs   for_match_rule 124-141, #[derive(Clone)] 270-275, Drop for Inner 277-287,
-                                  AsyncDrop 290-302
+     zbus/src/message_stream.rs   for_match_rule 124-141, #[derive(Clone)] on Inner with `match_rule:
+                                  Option<Arc<OwnedMatchRule>>` shared by the clones (fix 3c4a83a4), Drop for Inner and
+                                  AsyncDrop giving the subscription back only through `Arc::into_inner`
      zbus/src/proxy/mod.rs        ProxyInnerStatic::drop 104-110, subscribe_dest_owner_change 514-564,
                                   SignalStream::new 1133-1264, AsyncDrop for SignalStream 1331-1339
    No proofs here.
@@ -37,9 +38,11 @@ Inductive ev := EAdd (r : rule) | ERem (r : rule).     (* AddMatch(r) / RemoveMa
 (* one atomic action of a foreground future *)
 Inductive instr :=
 | ISub (h : hid) (r : rule)          (* MessageStream::for_match_rule: add_match(r); the stream (object h) holds r *)
-| IAsyncDrop (h : hid)               (* AsyncDrop::async_drop(object h): while h holds a rule: take the latest, remove_match awaited *)
-| IDrop (h : hid)                    (* drop(object h): every rule it holds goes to queue_remove_match *)
-| IClone (h' h : hid)                (* MessageStream::clone: h' holds what h holds; no add_match *)
+| IAsyncDrop (h : hid)               (* AsyncDrop::async_drop(object h): while h shares a subscription: let go of the latest;
+                                        if h was its last sharer (Arc::into_inner is Some) remove_match awaited *)
+| IDrop (h : hid)                    (* drop(object h): it lets go of every subscription it shares; those it was the last
+                                        sharer of go to queue_remove_match *)
+| IClone (h' h : hid)                (* MessageStream::clone: h' shares the subscriptions of h (Arc::clone); no add_match *)
 | IOwnerCheck (p : hid) (r : rule)   (* subscribe_dest_owner_change: dest_owner_change_match_rule.get().is_some() ? *)
 | IOwnerAdd (p : hid) (r : rule)     (*   conn.add_match(r).await: the receiver is dropped, the count is owed by this future *)
 | IOwnerSet (p : hid) (r : rule)     (*   OnceLock::set(r): ok -> proxy p holds r; Err (lost the race) -> remove_match(r) *)
@@ -47,11 +50,15 @@ Inductive instr :=
 
 Definition prog := list instr.
 
+(* one subscription (one count in `subscriptions`) and the objects that share it; never empty (Proofs: held_nonempty) *)
+Definition sub := (list hid * rule)%type.
+
 Record conn := {
   subs : rule -> nat;           (* ConnectionInner::subscriptions *)
   pend : list rule;             (* spawned "Remove match" tasks that have not run yet *)
-  held : list (hid * rule);     (* live objects and the subscriptions they hold: MessageStream.match_rule,
-                                   SignalStream's two streams, ProxyInnerStatic.dest_owner_change_match_rule *)
+  held : list sub;              (* the subscriptions held by live objects, each with the objects sharing it:
+                                   MessageStream.match_rule (an Arc shared by the clones of the stream), SignalStream's
+                                   two streams, ProxyInnerStatic.dest_owner_change_match_rule *)
   thr : list prog;              (* foreground futures in flight *)
   evs : list ev }.              (* what the bus has seen, oldest first *)
 
@@ -75,19 +82,38 @@ Definition remove_match (r : rule) (s : rule -> nat) (es : list ev) : (rule -> n
   | S (S n) => (set_subs s r (S n), es)
   end.
 
-Definition holds (h : hid) (x : hid * rule) : bool := (fst x =? h)%N.
-Definition rules_of (h : hid) (l : list (hid * rule)) : list rule := map snd (filter (holds h) l).
-(* the LAST subscription object h took out (SignalStream::async_drop gives up `signals` before `names`, the reverse of
-   the order in which SignalStream::new subscribed them) *)
-Fixpoint take_last (h : hid) (l : list (hid * rule)) : option (rule * list (hid * rule)) :=
+Definition has (h : hid) (x : sub) : bool := existsb (N.eqb h) (fst x).
+Definition without (h : hid) (x : sub) : sub := (filter (fun k => negb (k =? h)%N) (fst x), snd x).
+Definition emptied (x : sub) : bool := match fst x with [] => true | _ => false end.
+Definition has_any (h : hid) (l : list sub) : bool := existsb (has h) l.
+
+(* drop(h): h lets go of everything it shares; returns what is left and the rules whose last sharer it was *)
+Fixpoint drop_all (h : hid) (l : list sub) : list sub * list rule :=
+  match l with
+  | [] => ([], [])
+  | x :: t =>
+      let '(t', q) := drop_all h t in
+      if has h x then (if emptied (without h x) then (t', snd x :: q) else (without h x :: t', q))
+      else (x :: t', q)
+  end.
+
+(* async_drop(h), one subscription at a time, the LAST one h took out first (SignalStream::async_drop gives up
+   `signals` before `names`, the reverse of the order in which SignalStream::new subscribed them):
+   Some (Some r, l') = h was its last sharer, r must be removed; Some (None, l') = others still share it *)
+Fixpoint release_last (h : hid) (l : list sub) : option (option rule * list sub) :=
   match l with
   | [] => None
-  | x :: t => match take_last h t with
-              | Some (r, t') => Some (r, x :: t')
-              | None => if holds h x then Some (snd x, t) else None
+  | x :: t => match release_last h t with
+              | Some (o, t') => Some (o, x :: t')
+              | None => if has h x then
+                          (if emptied (without h x) then Some (Some (snd x), t) else Some (None, without h x :: t))
+                        else None
               end
   end.
-Definition has_any (h : hid) (l : list (hid * rule)) : bool := existsb (holds h) l.
+
+(* clone(h) -> h': every subscription h shares is now shared by h' too *)
+Definition share (h' h : hid) (l : list sub) : list sub :=
+  map (fun x => if has h x then (h' :: fst x, snd x) else x) l.
 
 (* the effect of the head instruction [i] of a future whose remaining program is [rest]:
    new shared state and the future's new program *)
@@ -95,16 +121,17 @@ Definition exec (i : instr) (rest : prog) (c : conn) : conn * prog :=
   let mk s p hl es := {| subs := s; pend := p; held := hl; thr := thr c; evs := es |} in
   match i with
   | ISub h r =>
-      let '(s, es) := add_match r (subs c) (evs c) in (mk s (pend c) (held c ++ [(h, r)]) es, rest)
+      let '(s, es) := add_match r (subs c) (evs c) in (mk s (pend c) (held c ++ [([h], r)]) es, rest)
   | IAsyncDrop h =>
-      match take_last h (held c) with
-      | Some (r, hl) => let '(s, es) := remove_match r (subs c) (evs c) in (mk s (pend c) hl es, IAsyncDrop h :: rest)
+      match release_last h (held c) with
+      | Some (Some r, hl) => let '(s, es) := remove_match r (subs c) (evs c) in (mk s (pend c) hl es, IAsyncDrop h :: rest)
+      | Some (None, hl) => (mk (subs c) (pend c) hl (evs c), IAsyncDrop h :: rest)
       | None => (c, rest)
       end
   | IDrop h =>
-      (mk (subs c) (pend c ++ rules_of h (held c)) (filter (fun x => negb (holds h x)) (held c)) (evs c), rest)
+      (mk (subs c) (pend c ++ snd (drop_all h (held c))) (fst (drop_all h (held c))) (evs c), rest)
   | IClone h' h =>
-      (mk (subs c) (pend c) (held c ++ map (fun r => (h', r)) (rules_of h (held c))) (evs c), rest)
+      (mk (subs c) (pend c) (share h' h (held c)) (evs c), rest)
   | IOwnerCheck p r =>
       if has_any p (held c) then (c, rest) else (c, IOwnerAdd p r :: rest)
   | IOwnerAdd p r =>
@@ -112,7 +139,7 @@ Definition exec (i : instr) (rest : prog) (c : conn) : conn * prog :=
   | IOwnerSet p r =>
       if has_any p (held c)
       then let '(s, es) := remove_match r (subs c) (evs c) in (mk s (pend c) (held c) es, rest)
-      else (mk (subs c) (pend c) (held c ++ [(p, r)]) (evs c), rest)
+      else (mk (subs c) (pend c) (held c ++ [([p], r)]) (evs c), rest)
   | ILeak r =>
       let '(s, es) := add_match r (subs c) (evs c) in (mk s (pend c) (held c) es, rest)
   end.
@@ -138,8 +165,7 @@ Definition prog_of (o : op) : prog :=
   | OReqName a l => [ILeak a; ILeak l]
   end.
 
-(* the two ways the pinned code breaks the refcount: *)
-Definition is_clone (o : op) : bool := match o with OClone _ _ => true | _ => false end.
+(* the way the pinned code breaks the refcount: *)
 Definition is_reqname (o : op) : bool := match o with OReqName _ _ => true | _ => false end.
 
 (* ------------------------------------------------------------------ every interleaving *)
@@ -166,7 +192,7 @@ Definition reachable (allowed : op -> bool) (c : conn) : Prop := steps allowed i
 (* nothing in flight, nothing queued *)
 Definition quiescent (c : conn) : Prop := pend c = [] /\ Forall (fun p => p = []) (thr c).
 
-(* live subscribers of r: objects holding r *)
+(* live subscriptions to r (each shared by at least one live object) *)
 Definition count_rule (r : rule) (l : list rule) : nat := List.length (filter (lbeq r) l).
 Definition live (c : conn) (r : rule) : nat := count_rule r (map snd (held c)).
 
